@@ -39,7 +39,18 @@ less='\n## What each miss taught\n\n'
 for r in rows:
     if r['missed']!='-' or 'exit' in r['note']:
         less+=f"- **{r['id']}**: {r['note']}\n"
-open('/verif/seeded/README.md','w').write(head+f'{n} changes, {n-len(missed)} reported by the checks as they stood, {len(missed)} only after a check was extended.\n\n'+t+less)
+tail='''
+## Changes written but not kept
+
+- Round 3, C08: `Unpacker::read_raw` no longer exhausts the unpacker when it fails, so later reads on
+  the same unpacker succeed on the leftover bytes. The repository's suite passes with it and the
+  author's demonstration fails with it, but the demonstration asserts the library's *current*
+  behaviour after an error, which the property does not state (it speaks of values read back
+  identically and of never reading past what was written; a read after a reported error returns
+  bytes that *were* written). Not a violation of C08 as written, therefore not kept and no check
+  was built for it.
+'''
+open('/verif/seeded/README.md','w').write(head+f'{n} changes, {n-len(missed)} reported by the checks as they stood, {len(missed)} only after a check was extended.\n\n'+t+less+tail)
 # DESIGN table
 dt='| seed | files | reported by | first run |\n|---|---|---|---|\n'
 for r in rows:
